@@ -3,6 +3,7 @@ package props
 import (
 	"bytes"
 	"fmt"
+	"sort"
 	"sync"
 	"sync/atomic"
 	"time"
@@ -67,7 +68,7 @@ func init() {
 			"'never early' is one-sided: the start instant is read before Play/MultiPlay is called, so machine load can only delay sends, never make the check fire",
 			"sysex events in tracks are not constrained (the statement speaks of channel messages and meta events)",
 		},
-		Require:         []string{"plays", "sends_observed", "same_tick_runs_ge_13", "cross_track_same_tick", "selections_proper_subset", "maps_without_default", "never_early_checks", "play_single_port", "replays_with_rerouted_map", "replays_with_another_map", "late_schedule_plays", "round_gap_plays", "selections_with_repeated_tracks", "long_plays_on_virtual_clock", "slow_ports", "files_with_tempo_curves_over_32_changes"},
+		Require:         []string{"plays", "sends_observed", "same_tick_runs_ge_13", "cross_track_same_tick", "selections_proper_subset", "maps_without_default", "never_early_checks", "play_single_port", "replays_with_rerouted_map", "replays_with_another_map", "late_schedule_plays", "round_gap_plays", "selections_with_repeated_tracks", "long_plays_on_virtual_clock", "slow_ports", "files_with_tempo_curves_over_32_changes", "files_with_tempo_events_in_two_tracks_and_same_tick_pairs", "undecodable_tempo_events"},
 		FakeTimeWorkers: 2,
 		Workers:         16,
 		Run:             runC12,
@@ -102,6 +103,11 @@ func runC12(c *mon.Ctx) {
 		id := 0
 		sameRun, cross := false, false
 		usedTicks := map[int64]int{}
+		// every fourth file has tempo events in two tracks (never on the same tick in both) and pairs of tempo events
+		// on one tick within the first of them
+		multiTempo := i%4 == 2 && nt >= 2
+		tempoTick0, tempoTick1 := map[int64]bool{}, map[int64]bool{}
+		tempoInTrack1, sameTickTempoPairs := 0, 0
 		for t := 0; t < nt; t++ {
 			var tr []ref.EncEv
 			var abs int64
@@ -154,7 +160,21 @@ func runC12(c *mon.Ctx) {
 						m = ref.Meta(0x06, []byte{byte(id)})
 					case r.P(1, 20):
 						m = []byte{0xF0, 0x7D, byte(id & 127), 0xF7}
-					case t == 0 && r.P(1, 25) && abs > 0:
+					case t == 1 && i%8 == 5 && r.P(1, 10):
+						// a tempo event that cannot be decoded (fewer than three data bytes): it sets no tempo
+						m = ref.Meta(0x51, [][]byte{{}, {0x07}, {0x07, 0xA1}}[r.Intn(3)])
+						c.Count("undecodable_tempo_events", 1)
+					case t == 1 && multiTempo && r.P(1, 4) && abs > 0 && !tempoTick0[abs]:
+						// tempo events in a second track (at ticks of their own): the tempo map is that of the whole file
+						f := uint32(r.Pick(400, 800, 1500, 3000))
+						if slow {
+							f = tempo()
+						}
+						m = ref.Meta(0x51, []byte{byte(f >> 16), byte(f >> 8), byte(f)})
+						tm.Events = append(tm.Events, ref.TempoEv{AbsTick: abs, USPerQuarter: f})
+						tempoTick1[abs] = true
+						tempoInTrack1++
+					case t == 0 && (r.P(1, 25) || (multiTempo && r.P(1, 5))) && abs > 0:
 						f := uint32(r.Pick(400, 800, 1500, 3000))
 						if slow {
 							f = tempo()
@@ -162,6 +182,19 @@ func runC12(c *mon.Ctx) {
 						m = ref.Meta(0x51, []byte{byte(f >> 16), byte(f >> 8), byte(f)})
 						if len(tm.Events) == 0 || tm.Events[len(tm.Events)-1].AbsTick <= abs {
 							tm.Events = append(tm.Events, ref.TempoEv{AbsTick: abs, USPerQuarter: f})
+						}
+						tempoTick0[abs] = true
+						if multiTempo && r.P(1, 2) {
+							// a second tempo event on the same tick, later in the file: it is the one in force
+							tr = append(tr, ref.EncEv{Ev: ref.Ev{Delta: d, Msg: m}})
+							d = 0
+							f2 := uint32(r.Pick(500_000, 1_000_000, 250_000))
+							if !slow {
+								f2 = uint32(r.Pick(5000, 9000, 20_000))
+							}
+							m = ref.Meta(0x51, []byte{byte(f2 >> 16), byte(f2 >> 8), byte(f2)})
+							tm.Events = append(tm.Events, ref.TempoEv{AbsTick: abs, USPerQuarter: f2})
+							sameTickTempoPairs++
 						}
 					default:
 						id++
@@ -179,6 +212,11 @@ func runC12(c *mon.Ctx) {
 			}
 			tr = append(tr, ref.EncEv{Ev: ref.Ev{Delta: uint32(r.Intn(20)), Msg: ref.EOT}})
 			tracks = append(tracks, tr)
+		}
+		// the tempo map of the file: all tempo events by tick, those of one tick in file order
+		sort.SliceStable(tm.Events, func(a, b int) bool { return tm.Events[a].AbsTick < tm.Events[b].AbsTick })
+		if tempoInTrack1 > 0 && sameTickTempoPairs > 0 && len(tm.Events) > 12 {
+			c.Count("files_with_tempo_events_in_two_tracks_and_same_tick_pairs", 1)
 		}
 		ef := &ref.EncFile{Format: 1, Division: uint16(res), NTracks: -1, Tracks: tracks}
 		b := ef.Bytes(nil)
